@@ -51,8 +51,8 @@ IM_Q = [-60.0, -1.0, 0.0, 0.3, 13.7]
 RE_T = [0.5, 1.0, 1.5, 2.0, 5.25, 14.0, 15.5, 30.0, 50.0]  # 14/15.5: cern_polygamma switches at |Re z| = 15
 IM_T = [-60.0, -13.7, -1.0, 0.0, 0.3, 7.0, 60.0]
 
-GQ_RE_Q = [0.5, 1.0, 2.0, 7.3, 50.0]
-GQ_IM_Q = [0.0, 1.0, 13.7]
+GQ_RE_Q = [0.5, 2.0, 7.3, 50.0]
+GQ_IM_Q = [0.0, 13.7]
 GQ_RE_T = [0.5, 1.0, 1.5, 2.0, 7.3, 14.0, 15.5, 30.0, 50.0]
 GQ_IM_T = [0.0, 0.3, 1.0, 7.0, 13.7, 60.0]
 
@@ -430,9 +430,8 @@ def _replay(history, re, im, flag, res, sigbase):
                 res.fail(f"{sigbase}/key={names[key]}/hit-changes-value", f"{where}: {before[key]!r} -> {v!r}")
         for i in range(len(ca)):
             if np.isnan(before[i]):
-                if not np.isnan(ca[i]):
-                    if i != key:
-                        stats["side"] += 1
+                if not np.isnan(ca[i]) and i != key:
+                    stats["side"] += 1
                     d = abs(ca[i] - tab[i]) / max(1.0, abs(tab[i]))
                     stats["mx"] = max(stats["mx"], d)
                     if not d <= TOL_CACHE:
